@@ -6,6 +6,8 @@
 #![allow(dead_code)]
 mod c06;
 mod c08;
+mod c10;
+mod c12;
 mod cov;
 mod fees;
 mod gen;
